@@ -827,6 +827,7 @@ async function select_unnested(sort_key, NR, folded_fields) {
 
 
 const PROCESS_SELECT_COMMON = `
+query_context.unnest_list = null;
 __RBQLMP__variables_init_code
 if (__RBQLMP__where_expression) {
     let out_fields = __RBQLMP__select_expression;
